@@ -726,11 +726,16 @@ fn one_launch(bin: &str, scratch: &Path, idx: usize, case: &Value) -> Value {
     if !file.is_empty() {
         std::fs::write(dir.join("rws.config.toml"), render_toml(&file, case["file_form"].as_str().unwrap_or("table"), case["style"].as_str().unwrap_or("plain"))).unwrap();
     }
-    let short = case["cli_form"] == "short";
-    let args: Vec<String> = cli.iter().map(|(s, v)| {
+    // cli_form: long | short | long_reversed | short_reversed (the order of the arguments must not matter)
+    let form = case["cli_form"].as_str().unwrap_or("long");
+    let short = form.starts_with("short");
+    let mut args: Vec<String> = cli.iter().map(|(s, v)| {
         let row = SETTINGS.iter().find(|x| x.0 == s).unwrap();
         if short { format!("-{}={}", row.3, v) } else { format!("--{}={}", row.2, v) }
     }).collect();
+    if form.ends_with("reversed") {
+        args.reverse();
+    }
     // candidate addresses
     let mut cand_ports: Vec<String> = env.iter().chain(file.iter()).chain(cli.iter()).filter(|(k, _)| k == "port").map(|(_, v)| v.clone()).collect();
     cand_ports.push("7878".to_string());
